@@ -34,6 +34,7 @@ FIXED = [
  ("C20", "fix: compose without a destination", "POST .../compose with a body lacking \"destination\" -> nil dereference"),
  ("C20", "fix: DELETE on the bucket collection", "file store: DELETE /storage/v1/b removes the store's root directory (every bucket)"),
  ("C20", "fix: rows with an empty key", "MutateRow with an empty row key is stored; ReadRows then emits a chunk without a row key"),
+ ("C20", "fix: a metadata PATCH with the body", "PATCH of an object's metadata with the JSON body null -> nil dereference"),
  ("C20", "fix: downloading an object marked gzip", "GET alt=media of an object with contentEncoding=gzip whose bytes are not gzip -> nil dereference"),
  ("C17", "fix: leveldb row iteration ignored", "leveldb engines: a filter error raised on a non-last row is overwritten by the next row; read ends OK with the row missing (btree returns InvalidArgument; seen through C05)"),
 ]
